@@ -91,6 +91,18 @@ def run(res, rng, tier, model_ok, replay=None):
                 for mode in (["st", "rd"] if tier == "quick" else ["st", "rd", "mt:4:0"]):
                     l2, e2, _ = gen.vcd_case(rng, mode, sigs, steps, False, ws="plain", regime="dense")
                     cases.append({"line": l2, "expect": e2, "key": nontrivial_key(l2, steps, False), "klass": "vcd-big-" + mode.split(":")[0], "pred": monitor})
+        # a storage block (65535 steps) in which no signal changes at all, between blocks that hold changes
+        for n in ([140000] if tier == "quick" else [131071, 140000, 200000]):
+            sigs = [gen.Sig("b", 1), gen.Sig("b", 8), gen.Sig("r")]
+            steps = []
+            for k in range(n):
+                ch = [(0, "01"[k % 2]), (1, format(k % 251, "08b")), (2, "%d.5" % (k % 1000))] if k in (0, 1, n - 2, n - 1) else []
+                steps.append((k * 2, ch))
+            table, out = gen.expected_obs(sigs, steps, False)
+            exp = gen.obs_string(table, out)
+            cases.append({"line": gen.enc_case(rng, sigs, steps), "expect": exp, "key": ("idle-block", n, "enc"), "klass": "enc-idle-block", "pred": monitor})
+            l2, e2, _ = gen.vcd_case(rng, "st", sigs, steps, False, ws="plain", regime="dense")
+            cases.append({"line": l2, "expect": e2, "key": ("idle-block", n, "vcd"), "klass": "vcd-idle-block", "pred": monitor})
         # exactly k*65535 accepted steps followed by a repeated / backwards / equal-to-earlier timestamp
         for k in ([1, 2] if tier == "quick" else [1, 2, 3]):
             for kind in ("repeat", "back", "back-then-forward"):
